@@ -164,6 +164,7 @@ pub mod prelude {
     yes_into!(u8, u16, u32, u64, i64);
     impl From<Yes> for String { fn from(v: Yes) -> String { format!("yes{}", v.0) } }
     impl From<Yes> for Wrap { fn from(v: Yes) -> Wrap { Wrap(v.0 as i64) } }
+    impl From<Yes> for &'static str { fn from(v: Yes) -> &'static str { if v.0 % 2 == 0 { "yes-even" } else { "yes-odd" } } }
 
     #[derive(Clone, Copy, PartialEq, Eq, PartialOrd, Ord, Hash, Default)] pub struct NoDebug(pub u8);
     #[derive(Debug, PartialEq, Eq, PartialOrd, Ord, Hash, Default)] pub struct NoClone(pub u8);
